@@ -79,11 +79,23 @@ func RandAppendCtor(r *rand.Rand, n int, clausesOnly, dirty bool) M {
 	kind := r.Intn(10)
 	if clausesOnly || kind < 6 {
 		length := 1 + r.Intn(3)
-		return Clause(RandClause(r, n, length, !dirty || r.Intn(4) > 0)...)
+		c := RandClause(r, n, length, true)
+		if dirty && len(c) > 0 { // repeat a literal, or add the complement of one
+			x := c[r.Intn(len(c))]
+			if r.Intn(3) == 0 {
+				x = -x
+			}
+			c = append(c, x)
+			if r.Intn(3) == 0 {
+				c = append(c, x)
+			}
+			r.Shuffle(len(c), func(i, j int) { c[i], c[j] = c[j], c[i] })
+		}
+		return Clause(c...)
 	}
-	k := 2 + r.Intn(min(n, 4)-1)
-	if k > n {
-		k = n
+	k := 1
+	if n >= 2 {
+		k = 2 + r.Intn(min(n, 4)-1)
 	}
 	lits := DistinctLits(r, n, k)
 	if kind < 8 {
